@@ -15,7 +15,7 @@
 From Coq Require Import List ZArith NArith String Bool.
 Import ListNotations.
 From Verif Require Import Common.Base Model.Fmtp Model.Codec Model.HeaderExt Model.Section Model.CodecAssoc
-     Proofs.Codec Proofs.Answer Proofs.CodecHist Proofs.CodecAssoc.
+     Proofs.Codec Proofs.Answer Proofs.CodecHist Proofs.CodecAssoc Proofs.CodecLit.
 Open Scope string_scope.
 
 (* witness: VP8 registered and preferred under payload type 96, offered under
@@ -90,6 +90,81 @@ Theorem c16_compatible_partial_meaning : forall o r,
   channels_equal (c_mime r) (c_channels r) (c_channels o) = true.
 Proof. exact partial_ok_spelled. Qed.
 Print Assumptions c16_compatible_partial_meaning.
+
+(* ---------- "the same codec (mime type, clock rate, channels)", literally ---------- *)
+
+(* The theorems above conclude "compatible": an exact fmtp match, or equal
+   mime type / clock rate / channels modulo letter case and the 0 defaults.
+   The property text says the answered payload type maps to the same codec:
+   same_codec o r = equal mime type (ignoring letter case), equal clock rate,
+   equal channels.  The gap between the two is literal_guard a b:
+     - both clock rates are stated (non-zero; an rtpmap always states it),
+     - both state the channel count or both leave it out,
+     - for H264 / VP9 / AV1, whose Match looks at the fmtp line only: entries of
+       the same mime type agree in clock rate and channels.
+   Under it compatible is literal equality: *)
+Theorem c16_compatible_literal : forall a b,
+  compatible a b -> literal_guard a b -> same_codec a b.
+Proof. exact compatible_literal. Qed.
+Print Assumptions c16_compatible_literal.
+
+(* c16_partial with literal equality: for all registrations and all remote
+   descriptions in which rcs is the only section of its kind and every two
+   entries of rcs are under the guard (section_literal: stated clock rates, and
+   no two entries that differ only in clock rate / channels in the way the
+   matching cannot see), a transceiver created from the remote description, or a
+   local one whose preferences are empty, or carry payload type 0 and are under
+   the guard against every offered entry, answers only offered payload types,
+   each for the same codec: mime type (ignoring case), clock rate, channels *)
+Theorem c16_same_codec_partial : forall video audio multi secs e' res k rcs prefs o,
+  k = KVideo \/ k = KAudio ->
+  update_from_remote (new_engine video audio multi) secs = (e', res) ->
+  (forall rcs', In (k, rcs') secs -> rcs' = rcs) ->
+  section_literal rcs ->
+  (prefs = [] \/
+   (forall p, In p prefs -> c_pt p = 0%N /\ forall r, In r rcs -> literal_guard p r) \/
+   prefs = set_prefs_from_remote (negotiated_of e' k) rcs) ->
+  In o (get_codecs (negotiated_of e' k) prefs) ->
+  exists r, In r rcs /\ c_pt r = c_pt o /\ same_codec o r.
+Proof. exact answer_same_codec. Qed.
+Print Assumptions c16_same_codec_partial.
+
+(* the general form: any negotiated list that holds offered codecs only, any
+   preference list whose entries have payload type 0 and are under the guard, or
+   keep a non-zero payload type offered for literally the same codec *)
+Theorem c16_same_codec_grounded : forall offered neg prefs o,
+  grounded_list offered neg ->
+  (forall p, In p prefs ->
+     (c_pt p = 0%N /\ forall r, In r offered -> literal_guard p r) \/
+     (c_pt p <> 0%N /\ pref_grounded_lit offered p)) ->
+  In o (get_codecs neg prefs) ->
+  exists r, In r offered /\ c_pt r = c_pt o /\ same_codec o r.
+Proof. exact get_codecs_offered_lit. Qed.
+Print Assumptions c16_same_codec_grounded.
+
+(* outside the guard the literal statement fails while c16_partial's holds: H264
+   offered with one fmtp line under payload types 100 (clock rate 90000) and 101
+   (48000); the transceiver created from that section answers payload type 100
+   for the 48000 entry (replayed on a real PeerConnection, finding
+   answer-pt-of-fmtp-equivalent-offered-codec) *)
+Theorem c16_same_codec_refuted :
+  exists video secs rcs e' res o,
+    update_from_remote (new_engine video [] true) secs = (e', res) /\ res = Ok tt /\
+    secs = [(KVideo, rcs)] /\
+    In o (get_codecs (negotiated_of e' KVideo) (set_prefs_from_remote (negotiated_of e' KVideo) rcs)) /\
+    (exists r, In r rcs /\ c_pt r = c_pt o /\ compatible o r) /\
+    (forall r, In r rcs -> c_pt r = c_pt o -> c_clock r <> c_clock o) /\
+    ~ section_literal rcs.
+Proof. exact answer_not_same_codec. Qed.
+Print Assumptions c16_same_codec_refuted.
+
+(* the guard holds of an ordinary section: VP8 with RTX, H264 in two
+   packetization modes, every clock rate stated *)
+Example c16_section_literal_nontrivial :
+  section_literal [ mkCodec "video/VP8" 90000 0 "" [] 100; mkCodec "video/rtx" 90000 0 "apt=100" [] 101;
+                    mkCodec "video/H264" 90000 0 lw_line [] 102;
+                    mkCodec "video/H264" 90000 0 "packetization-mode=0;profile-level-id=42e01f" [] 104 ].
+Proof. exact section_literal_example. Qed.
 
 (* ---------- histories of answered offers, transceiver matching inside the step ---------- *)
 
